@@ -61,6 +61,18 @@ pub fn btree_last<'a, V>(m: &'a BTreeMap<usize, V>) -> (r: Option<(&'a usize, &'
     m.last_key_value()
 }
 
+// m.first_key_value()
+#[verifier::external_body]
+pub fn btree_first<'a, V>(m: &'a BTreeMap<usize, V>) -> (r: Option<(&'a usize, &'a V)>)
+    ensures
+        match r {
+            Some((a, s)) => m@.contains_key(*a) && m@[*a] == *s && forall|b: usize| m@.contains_key(b) ==> b >= *a,
+            None => forall|b: usize| !m@.contains_key(b),
+        }
+{
+    m.first_key_value()
+}
+
 // mem::take(&mut m)
 #[verifier::external_body]
 pub fn take_map<V>(m: &mut BTreeMap<usize, V>) -> (r: BTreeMap<usize, V>)
